@@ -113,6 +113,13 @@ ADDENDA_7 = {
     "C12": " The first registration frame must carry the configured settings (topic, retention, operations); publisher victims publish in feed-bursts large enough that a loss is first noticed by poll_ready.",
     "C03": " An item whose encoding is far below the frame limit must not be refused as too large.",
 }
+ADDENDA_8 = {
+    "C10": " Stalled-rejection family: raw peers register as further repliers behind a 9-48 byte stream window and read nothing (the pending outcome of the rejected sink, held for good); the bound replier's traffic must continue and a fresh requestor must be served.",
+    "C11": " Stalled-rejection family: the same peers must not make the topic unusable for others.",
+    "C12": " After every error the victim stream reports it is asked once more: another error or the end, never a panic.",
+    "C13": " Exponential factors include powers of two (2, 4, 16, 2^32, 2^63).",
+    "C14": " Invalid strings include a text cut inside its last multi-byte character.",
+}
 ADDENDA = {
     "C02": " N part (slow-requestors): raw requestors behind 1 kB-1 MB stream windows burst requests at a library replier, stall, then read; each must receive exactly its own replies, once, intact, cid stripped.",
     "C03": " Also: truly empty items; 1-2 MB made of thousands of small messages under batch sizes up to 20000 (batches cut by encoded size); subscribers read during or only after publishing.",
@@ -138,7 +145,7 @@ def main():
         if pid not in CHECKS:
             continue
         cat, engine, technique, text, note, ref = CHECKS[pid]
-        text = text + ADDENDA.get(pid, "") + ADDENDA_3.get(pid, "") + ADDENDA_5.get(pid, "") + ADDENDA_6.get(pid, "") + ADDENDA_7.get(pid, "")
+        text = text + ADDENDA.get(pid, "") + ADDENDA_3.get(pid, "") + ADDENDA_5.get(pid, "") + ADDENDA_6.get(pid, "") + ADDENDA_7.get(pid, "") + ADDENDA_8.get(pid, "")
         engine = ENGINE_OVERRIDE.get(pid, engine)
         checks.append({
             "property_id": pid,
